@@ -48,6 +48,12 @@ def check(ctx):
     # whether a bad jump is reachable, and strict mode must then report an error (code 38)
     for code in gen.c08_programs(rng, bw, 250 if ctx.quick else 4000):
         progs.setdefault((code, (30000000, 10, 50, 250, 394)), "reference-jumps")
+    # the stack limit: 1023 / 1024 items, then every kind of instruction that grows the stack (a PUSH, a DUPn, PC, an
+    # environment read) -- at 1024 it must raise StackDepthExceeded, listed in strict mode, fatal in permissive mode
+    for depth in (1023, 1024):
+        for grow in ([0x5f], [0x60, 0x01], [0x80], [0x8f], [0x58], [0x33], [0x36], [0x80, 0x50], [0x90], [0x50]):
+            code = bytes([0x5f] * depth + grow + [0x00])
+            progs.setdefault((code, (30000000, 10, 50, 250, 394)), "stack-limit")
     for code in gen.trampoline_programs(rng, 150 if ctx.quick else 3000):
         progs.setdefault((code, (30000000, 10, 50, 250, 394)), "shared-trampoline")
     keys = list(progs.keys())
